@@ -310,8 +310,10 @@ Fixpoint lim_loop (fuel : nat) (G : store) (pending : list nat) (d : depths) : o
           if length p' <? length pending then lim_loop f G p' d' else Some false
       end
   end.
+(* glyph_info only holds the glyphs of the glyph order (exported ones); their components are
+   exported too by then (create_composite fails with NotInGlyphOrder otherwise, see be_stage) *)
 Definition limits (fuel : nat) (G : store) : option bool :=
-  lim_loop fuel G (ds_indet0 G) (ds_depths0 G).
+  lim_loop fuel G (filter (fun v => g_export (get G v)) (ds_indet0 G)) (ds_depths0 G).
 
 (* ------------------------------ GlyphOrderWork::exec and the back end *)
 Record flags := mkFlags { fl_prefer_simple : bool; fl_flatten : bool; fl_decompose : bool }.
